@@ -555,6 +555,25 @@ static void run_one(case_t const& c)
     std::fflush(stdout);
 }
 
+// Runner: one child process runs the cases one after the other (the wrappers and the ledger are
+// reset between cases); if it dies (sanitizer abort, signal) the parent reports `end crash` for
+// the case that was running and starts a new child at the next case.  (Forking per case, as
+// e1_main.hpp does, costs more than the cases themselves under ASan.)
+#include <sys/mman.h>
+
+static void reset_world()
+{
+    for (auto& s : S)
+    {
+        s.f.reset();
+        s.q.reset();
+        s.u.reset();
+        s.a.reset();
+    }
+    g_next = 0;
+    g_evs.clear();
+}
+
 int main(int argc, char** argv)
 {
     if (argc < 2)
@@ -562,5 +581,46 @@ int main(int argc, char** argv)
         std::fprintf(stderr, "usage: %s <case-file>\n", argv[0]);
         return 2;
     }
-    return run_case_file(argv[1], run_one);
+    std::ifstream f(argv[1]);
+    if (!f)
+    {
+        std::fprintf(stderr, "cannot open %s\n", argv[1]);
+        return 2;
+    }
+    auto cases = read_cases(f);
+    auto* progress = static_cast<volatile long*>(
+        mmap(nullptr, sizeof(long), PROT_READ | PROT_WRITE, MAP_SHARED | MAP_ANONYMOUS, -1, 0));
+    std::size_t start = 0;
+    while (start < cases.size())
+    {
+        *progress = long(start);
+        std::fflush(stdout);
+        pid_t pid = fork();
+        if (pid == 0)
+        {
+            alarm(600);
+            for (std::size_t k = start; k < cases.size(); ++k)
+            {
+                *progress = long(k);
+                auto const& c = cases[k];
+                std::printf("%s\n", c.header.c_str());
+                std::fflush(stdout);
+                reset_world();
+                run_one(c);
+                std::printf("endcase\n");
+                std::fflush(stdout);
+            }
+            *progress = long(cases.size());
+            _exit(0);
+        }
+        int st = 0;
+        waitpid(pid, &st, 0);
+        std::size_t at = std::size_t(*progress);
+        if (at >= cases.size()) break;
+        if (WIFSIGNALED(st)) std::printf("\nend crash signal=%d\n", WTERMSIG(st));
+        else std::printf("\nend crash exit=%d\n", WIFEXITED(st) ? WEXITSTATUS(st) : -1);
+        std::printf("endcase\n");
+        start = at + 1;
+    }
+    return 0;
 }
